@@ -410,3 +410,30 @@ def rule_join_relative(cx, rule):
     if not echo or not equivalent(Or(*[e.pc for e, _ in echo]), joined)[0]:
         rule.violation('process_join|relative|echo', 'the JOIN echo to the joiner and the membership change do not happen under the same '
                        'condition', loc=cx.loc(echo[0][0].node) if echo else fn)
+
+
+def rule_invitation_relative(cx, rule):
+    """life cycle of an invitation, relative to the handler's own decision (shared: C09 R9.5): the pending invitation to a channel is
+       taken away only when the joiner is entered into that channel, and always then (for an existing channel).  Whether the decision
+       itself is the right one is C07's business."""
+    prog = cx.prog
+    fn = cx.fn('process_join')
+    w = cx.walk(fn, args=[SELF, CONN, CH_PARAM, KEYS], key='c07')
+    eff = effects(w, prog)
+    ins = [e for e, x in eff if x['op'] == 'insert' and x['place'] == field(ME, 'channels') and x['args'][:1] == [C]]
+    rem = [(e, x) for e, x in eff if x['op'] == 'remove' and path_of(x['place'])[-1:] == ['invited_to']]
+    rule.instance('JOIN: invitation removals: %d, membership inserts: %d' % (len(rem), len(ins)))
+    if not ins:
+        raise AnchorLost('process_join: user-side membership insert not found')
+    joined = Or(*[e.pc for e in ins])
+    for e, x in rem:
+        if x['place'] != field(ME, 'invited_to') or x['args'][:1] != [C]:
+            rule.violation('process_join|relative|invitation-foreign', 'JOIN removes an invitation other than the joiner\'s own for the joined '
+                           'channel: %s' % show_term(x['place'])[:60], loc=cx.loc(e.node))
+        elif not entails(e.pc, joined)[0]:
+            rule.violation('process_join|relative|invitation-consumed-without-join', 'the invitation is taken away on a path where the user is '
+                           'not entered into the channel: the INVITE granted no admission', loc=cx.loc(e.node))
+    exists_ = has(CHANNELS, C)
+    if not rem or not entails(And(joined, exists_), Or(*[e.pc for e, _ in rem]))[0]:
+        rule.violation('process_join|relative|invitation-kept', 'an invitation survives the JOIN it admitted: it grants more than one admission',
+                       loc=fn)
